@@ -100,11 +100,24 @@ def _segment(gravity, y, a, b, active):
     return y
 
 
+def impulse_dv(y, dv, frame="eci"):
+    """ECI velocity increment of an impulse ``dv`` given in ``frame`` ("eci" | "ntw") at the state ``y`` it finds:
+    NTW components are (N, T, W) along the same basis as the NTW thrust law."""
+    dv = np.asarray(dv, dtype=float)
+    if frame == "eci":
+        return dv.copy()
+    if frame == "ntw":
+        n_hat, t_hat, w_hat = ntw_basis(y[:3], y[3:6])
+        return dv[0] * n_hat + dv[1] * t_hat + dv[2] * w_hat
+    raise ValueError(frame)
+
+
 def integrate(gravity, y0, t0, out_times, burns, impulses=()):
     """Reference states at ``out_times`` (ascending, > t0).
 
     burns: iterable of (t_start, t_end, spec) - thrust is applied for t in [t_start, t_end] only.
-    impulses: iterable of (t, dv3) - velocity increment applied at t (ECI).
+    impulses: iterable of (t, dv3) or (t, dv3, frame) - velocity increment applied once, at t, in the ECI (default)
+        or the NTW frame of the state at that instant.
     Returns {out_time: state(6,)}.
     """
     out_times = [float(t) for t in out_times]
@@ -114,25 +127,26 @@ def integrate(gravity, y0, t0, out_times, burns, impulses=()):
         for t in (float(ts), float(te)):
             if t0 < t < t_end:
                 pts.add(t)
-    for ti, _ in impulses:
-        if t0 < float(ti) < t_end:
-            pts.add(float(ti))
+    impulses = [(float(p[0]), np.asarray(p[1], dtype=float), p[2] if len(p) > 2 else "eci") for p in impulses]
+    for ti, _, _ in impulses:
+        if t0 < ti < t_end:
+            pts.add(ti)
     pts = sorted(pts)
     y = np.array(y0, dtype=float)
     res = {}
-    imp = sorted(((float(t), np.asarray(dv, dtype=float)) for t, dv in impulses), key=lambda p: p[0])
+    imp = sorted(impulses, key=lambda p: p[0])
     for a, b in zip(pts[:-1], pts[1:]):
-        for ti, dv in imp:
+        for ti, dv, frame in imp:
             if ti == a:
                 y = y.copy()
-                y[3:6] += dv
+                y[3:6] += impulse_dv(y, dv, frame)
         mid = 0.5 * (a + b)
         active = [spec for ts, te, spec in burns if float(ts) <= mid <= float(te)]
         y = _segment(gravity, y, a, b, active)
         if b in out_times:
             yy = y.copy()
-            for ti, dv in imp:  # an impulse exactly on an output time is part of the state reported at that time
+            for ti, dv, frame in imp:  # an impulse exactly on an output time is part of the state reported at that time
                 if ti == b:
-                    yy[3:6] += dv
+                    yy[3:6] += impulse_dv(yy, dv, frame)
             res[b] = yy
     return res
